@@ -9,6 +9,7 @@ mod node;
 mod sim;
 mod c_node;
 mod c_confchange;
+mod monitor;
 
 fn main() {
     let args: Vec<String> = std::env::args().collect();
@@ -24,6 +25,7 @@ fn main() {
         "memstorage" => c_memstorage::main(rest),
         "node" => c_node::main(rest),
         "confchange" => c_confchange::main(rest),
+        "monitor" => monitor::main(rest),
         other => {
             eprintln!("unknown component {}", other);
             std::process::exit(2);
